@@ -10,7 +10,11 @@ Inductive item :=
 | Op (s : string)        (* opcode mnemonic *)
 | Imm (n : Z)            (* push immediate *)
 | Lbl (l : string)       (* Label *)
-| PushLbl (l : string).  (* PUSHLABEL *)
+| PushLbl (l : string)   (* PUSHLABEL *)
+| PushOfst (l : string) (n : Z)   (* PUSH_OFST(Label, ofst) *)
+| DataHdr (l : string)   (* DataHeader *)
+| DataLbl (l : string)   (* DATA_ITEM(Label) *)
+| Opaque (s : string).   (* anything else: DATA_ITEM(bytes), CONST, PUSH_OFST(CONSTREF, ..) *)
 
 Definition item_eqb (a b : item) : bool :=
   match a, b with
@@ -18,6 +22,10 @@ Definition item_eqb (a b : item) : bool :=
   | Imm x, Imm y => Z.eqb x y
   | Lbl x, Lbl y => String.eqb x y
   | PushLbl x, PushLbl y => String.eqb x y
+  | PushOfst x n, PushOfst y m => String.eqb x y && Z.eqb n m
+  | DataHdr x, DataHdr y => String.eqb x y
+  | DataLbl x, DataLbl y => String.eqb x y
+  | Opaque x, Opaque y => String.eqb x y
   | _, _ => false
   end.
 Definition is_op (a : item) (s : string) : bool := item_eqb a (Op s).
@@ -162,6 +170,10 @@ Definition show_item (a : item) : string :=
   | Imm n => "#" ++ Verif.Base.Hex.hexZ n
   | Lbl l => "L:" ++ l
   | PushLbl l => "P:" ++ l
+  | PushOfst l n => "O:" ++ l ++ ":" ++ Verif.Base.Hex.hexZ n
+  | DataHdr l => "D:" ++ l
+  | DataLbl l => "DL:" ++ l
+  | Opaque s => "<" ++ s ++ ">"
   end.
 Definition show_asm (r : res (list item)) : string :=
   match r with
